@@ -1717,6 +1717,18 @@ impl proto::Peer for Peer {
 
         b = b.version(Version::HTTP_2);
 
+        // RFC 9113, section 8.3.2: request pseudo-header fields are not
+        // allowed in a response.
+        if pseudo.method.is_some()
+            || pseudo.scheme.is_some()
+            || pseudo.authority.is_some()
+            || pseudo.path.is_some()
+            || pseudo.protocol.is_some()
+        {
+            tracing::debug!("malformed headers: request pseudo-header field in response");
+            return Err(Error::library_reset(stream_id, Reason::PROTOCOL_ERROR));
+        }
+
         if let Some(status) = pseudo.status {
             b = b.status(status);
         }
